@@ -50,8 +50,10 @@ func checkC02(ctx *Ctx, r *Report) {
 	c02PythonModuleNames(ctx, r)
 	c02JavaPackageSegments(ctx, r)
 	c02JavaClassNamesFormatted(ctx, r)
+	c10SeventhHunt(ctx, r)                // the branch of a union that holds a numeric default: `Any: (func (input unknown) …)` does not type-check
 	c10GoNestedOverrideRecurses(ctx, r)   // a struct default holding another struct: `Inner: map[string]interface {}{…}` does not type-check
 	c16FourthHunt(ctx, r)                 // a union branch referring to a constant: the Go builder does not type-check
+	c11SeventhRound(ctx, r, false)        // packages called typing / enum / global: the Python modules do not parse
 	c11SixthRound(ctx, r)                 // objects that end up with one identifier; modules hidden by the locals of the generated methods
 	c01GoTemplateVariablesEscaped(ctx, r) // a union branch called Raw / Json: the decoders do not compile
 	c06FourthHunt(ctx, r)                 // enum members named like other declarations; builders of named optionals
@@ -3390,8 +3392,24 @@ func c02PythonModuleNames(ctx *Ctx, r *Report) {
 		ast.Inspect(is.Cond, func(k ast.Node) bool {
 			if c, ok := k.(*ast.CallExpr); ok {
 				if f := callee(info, c); f != nil && f.Pkg() == p.Types {
+					// a test on the *characters* of the name (a loop over it, the unicode / regexp packages): a list
+					// of reserved words says nothing of `with-dashes` or `1st`
+					characters := false
+					if gd, _ := ctx.DeclOf(f); gd != nil && gd.Body != nil {
+						ast.Inspect(gd.Body, func(z ast.Node) bool {
+							switch x := z.(type) {
+							case *ast.RangeStmt:
+								characters = true
+							case *ast.CallExpr:
+								if g := callee(info, x); g != nil && g.Pkg() != nil && (g.Pkg().Path() == "unicode" || g.Pkg().Path() == "regexp" || g.Pkg().Path() == "go/token") {
+									characters = true
+								}
+							}
+							return true
+						})
+					}
 					for _, a := range c.Args {
-						if isPackageSel(a) {
+						if isPackageSel(a) && characters {
 							tested = true
 						}
 					}
